@@ -371,6 +371,34 @@ def _reynolds(rng, nx, ny, sym):
                                    v=np.array([rng.uniform(20, 260)])), outputs=["re"])
 
 
+@spec("AtmosComp", sym_opts=tuple(range(7)))
+def _atmos_comp(rng, nx, ny, regime):
+    """the interpolation table is read from the source text; `regime` stratifies the altitude over the table"""
+    from openaerostruct.common.atmos_comp import AtmosComp
+    from . import generate
+    cols = generate.atmos_columns()
+    alt = np.array(cols["alt"]); n = len(alt)
+    k = int(rng.integers(1, n - 1))
+    if regime == 0:
+        h = rng.uniform(alt[0], alt[-1])
+    elif regime == 1:       # both ends of the isothermal layer, where the spline still bends
+        h = rng.uniform(36000.0, 37000.0) if rng.integers(2) else rng.uniform(65000.0, 66000.0)
+    elif regime == 2:       # coarse part of the table
+        h = rng.uniform(100000.0, alt[-1])
+    elif regime == 3:       # first and last two segments (extrapolated slopes)
+        h = rng.uniform(alt[0], alt[2]) if rng.integers(2) else rng.uniform(alt[-3], alt[-1])
+    elif regime == 4:       # just beside a knot
+        h = alt[k] + rng.choice([-1.0, 1.0]) * 10.0 ** rng.uniform(-6, 0)
+    elif regime == 5:       # on a knot
+        h = alt[k]
+    else:                   # inside the isothermal layer
+        h = rng.uniform(37000.0, 65000.0)
+    consts = np.concatenate([alt, cols["T"], cols["P"], cols["rho"], cols["a"], cols["viscosity"]])
+    return dict(factory=lambda: AtmosComp(), ints=[n], consts=list(consts),
+                inputs=OrderedDict(altitude=np.array([float(h)]), Mach_number=np.array([rng.uniform(0.05, 0.95)])),
+                outputs=["T", "P", "rho", "speed_of_sound", "mu", "v"], jrowscale=True)
+
+
 @spec("MomentCoefficient")
 def _moment_coefficient(rng, nx, ny, sym):
     from openaerostruct.functionals.moment_coefficient import MomentCoefficient
